@@ -99,6 +99,15 @@ CLAIMED = {
         technique="bounded stand-in for contract-based verification: deal run-time contracts around the real solver run in fresh processes (labelled bounded, not proved)",
         design_ref="DESIGN.md section 2, C47",
     ),
+    "C03": dict(
+        category="exploration",
+        text=("BOUNDED stand-in (never counted as proved): the real solver is run on a tiny NLO card pair with one threshold crossing with n_integration_cores in {2, 3, -1}, with every permutation of the three "
+              "targets and with every non-empty proper subset of the targets (quick tier: a covering subset); for every target the operator and the integration error must be bitwise those of the reference run "
+              "(one worker, given order). The deductive neighbours are C02 (parts computed once, joined in path order) and C17 (couplings independent of the query history)."),
+        note="Bounded: finite input set stated in bounded/C03_native.py; interpreted (non-JIT) kernels; no statement about other cards or machines with another CPU count.",
+        technique="bounded stand-in for contract-based verification: deal run-time contracts around the real solver (labelled bounded, not proved)",
+        design_ref="DESIGN.md section 2, C03",
+    ),
     "C40": dict(
         category="exploration",
         text=("BOUNDED stand-in, never counted as proved: YAML and the dataclass / typing reflection of eko.io.dictlike are outside the symbolic engine. `deal` run-time contracts on the real "
@@ -505,7 +514,6 @@ CLAIMED = {
 }
 
 NA = {
-    "C03": "schedule/worker-count/target-order independence with bitwise equality: concurrency and float reproducibility are outside contract verification of sequential real-arithmetic semantics",
     "C05": "1%-tolerance integrals of interpolated x-space PDFs: no exact postcondition; quadrature in floats (Mellin core covered by C11/C25)",
     "C06": "'within interpolation accuracy, shrinking under refinement': asymptotic numerics (exact composition facts are covered by C02/C10/C22)",
     "C12": "convergence rate of iterated/perturbative discretisations towards a solution without closed form: no finite pre/postcondition decides it",
